@@ -29,7 +29,7 @@ func TestVerif(t *testing.T) {
 			"concurrent: 2-3 goroutines through one cache (same host and scope, same host different scopes, different hosts, first caller cancelled during the token fetch) under every schedule within D<=2. " +
 			"Oracle at the innermost transport: every outgoing request is scanned (headers, query, body) for every secret of the other registry; passwords/refresh tokens only to the registry that challenged Basic or to the realm that registry advertised; " +
 			"with valid credentials the answer is non-401 after <= 3 sends to the registry and <= 1 token fetch per request; a bearer token is attached only at the host that issued it, and (no cache or shared cache) only when the canonical scope set it was issued for is the set the request declared as hints or that set joined with the scopes the registry asked for in the same exchange. " +
-			"Separately CleanScopes over every scope list of <= 3 items from a 7-item alphabet: idempotent, order-insensitive, duplicate-free, wildcard-absorbing. non-trivial = distinct sequence containing both hosts or a cache hit",
+			"Separately CleanScopes over every scope list of <= 3 items from a 10-item alphabet (three of them with a colon inside the resource name): idempotent, order-insensitive, duplicate-free, wildcard-absorbing. non-trivial = distinct sequence containing both hosts or a cache hit",
 		Assumptions: []string{
 			"the Authorization copy made by the blob upload path of Repository is Repository code, not the auth client, and is outside this property",
 			"a cross-registry redirect is only generated towards b.example: towards the same host name on another port net/http itself copies the Authorization header (its same-domain redirect policy), which is not the auth client's doing",
@@ -153,11 +153,14 @@ func covers(granted []string, need string) bool {
 func canonSet(in []string) string {
 	m := map[string]map[string]bool{}
 	for _, s := range in {
-		p := strings.SplitN(s, ":", 3)
-		if len(p) != 3 {
+		// <type>:<name>:<actions> - the name may contain colons itself (host:port/path), so the type ends
+		// at the first colon and the actions start after the last one
+		i, j := strings.Index(s, ":"), strings.LastIndex(s, ":")
+		if i < 0 || j <= i {
 			m[s] = map[string]bool{}
 			continue
 		}
+		p := []string{s[:i], s[i+1 : j], s[j+1:]}
 		k := p[0] + ":" + p[1]
 		if m[k] == nil {
 			m[k] = map[string]bool{}
@@ -592,12 +595,15 @@ func detail(w *world, hist []string) string {
 // ---- CleanScopes
 
 func cleanScopes(c *driver.Ctx) {
-	alpha := []string{"repository:a:pull", "repository:a:push", "repository:a:pull,push", "repository:a:*", "repository:b:pull", "registry:catalog:*", "repository:a:push,pull"}
+	alpha := []string{"repository:a:pull", "repository:a:push", "repository:a:pull,push", "repository:a:*", "repository:b:pull", "registry:catalog:*", "repository:a:push,pull",
+		// resource names that contain a colon themselves (a repository named with its mirror's host:port)
+		"repository:h:5000/a:pull", "repository:h:5000/a:push", "repository:h:5000/b:pull"}
 	canon := func(in []string) string {
 		// independent model: resource -> action set; '*' absorbs; sorted
 		m := map[string]map[string]bool{}
 		for _, s := range in {
-			p := strings.SplitN(s, ":", 3)
+			i, j := strings.Index(s, ":"), strings.LastIndex(s, ":")
+			p := []string{s[:i], s[i+1 : j], s[j+1:]}
 			k := p[0] + ":" + p[1]
 			if m[k] == nil {
 				m[k] = map[string]bool{}
